@@ -689,3 +689,229 @@ Proof.
 Qed.
 Print Assumptions metrics_never_out_of_fuel.
 
+
+(* ------------------------------------------------------------------------------------ *)
+(* 7. calendar alignment of the windows: the values of [current] are local period boundaries in the
+      sense of Spec/MetricsSpec.v is_boundary (hour: mm:ss = 00:00; day: midnight; week: Monday
+      midnight; month: the 1st, midnight; year: 1 January, midnight), each step adds exactly the
+      length of the period beginning there (plen), and the first one is the period containing the
+      wall clock of the range start *)
+
+Definition bdy (p : period) (c : Z) : Prop :=
+  match p with
+  | PHour => c mod 3600 = 0
+  | PDay => c mod DAY = 0
+  | PWeek => c mod DAY = 0 /\ weekday (c / DAY) = 0
+  | PMonth => month_start c
+  | PYear => year_start c
+  | PFull => True
+  end.
+
+Definition step (p : period) : Z -> Z :=
+  match p with
+  | PHour => next_hour | PDay => next_day | PWeek => next_week | PMonth => next_month | PYear => next_year
+  | PFull => fun c => c
+  end.
+
+Definition snap (p : period) (w : Z) : Z :=
+  match p with
+  | PHour => dt_ymdh (w_year w) (w_month w) (w_day w) (w_hour w)
+  | PDay => dt_ymd (w_year w) (w_month w) (w_day w)
+  | PWeek => dt_ymd (w_year w) (w_month w) (w_day w) - weekday (wall_day w) * DAY
+  | PMonth => dt_ymd (w_year w) (w_month w) 1
+  | PYear => dt_ymd (w_year w) 1 1
+  | PFull => w
+  end.
+
+Definition fuel_unit (p : period) : Z :=
+  match p with
+  | PHour => 3600 | PDay => DAY | PWeek => 7 * DAY | PMonth => 28 * DAY | PYear => 365 * DAY | PFull => 1
+  end.
+
+Lemma pwd_unfold z a b p : a < b -> p <> PFull ->
+  period_windows_dt z a b p =
+  win_loop (loop_fuel (fuel_unit p) (snap p (utc_to_wall z a)) (utc_to_wall z b)) z (step p)
+           (snap p (utc_to_wall z a)) (utc_to_wall z b).
+Proof.
+  intros Hab Hp. unfold period_windows_dt. replace (a >=? b) with false by lia.
+  destruct p; cbn [snap step fuel_unit]; [reflexivity..|exfalso; apply Hp; reflexivity].
+Qed.
+
+Lemma month_start_boundary c : month_start c -> c mod DAY = 0 /\ w_day c = 1.
+Proof.
+  intros (y & m & Hm & E). rewrite E. split; [apply dt_ymd_mod|apply (w_fields_first y m Hm)].
+Qed.
+
+Lemma year_start_boundary c : year_start c -> c mod DAY = 0 /\ w_day c = 1 /\ w_month c = 1.
+Proof.
+  intros (y & E). rewrite E. destruct (w_fields_first y 1 ltac:(lia)) as (_ & Em & Ed).
+  split; [apply dt_ymd_mod|]. split; assumption.
+Qed.
+
+Lemma bdy_facts p c : p <> PFull -> bdy p c ->
+  is_boundary p c = true /\ c mod unit_of_period p = 0 /\ step p c = c + plen p c /\
+  c < step p c /\ bdy p (step p c).
+Proof.
+  intros Hp H. destruct p; cbn [bdy is_boundary unit_of_period step plen] in *; try congruence.
+  - unfold next_hour. repeat split; lia.
+  - unfold next_day, DAY in *. repeat split; lia.
+  - destruct H as [H1 H2]. split; [apply andb_true_intro; split; apply Z.eqb_eq; assumption|].
+    unfold next_week, weekday, DAY in *. repeat split; lia.
+  - destruct (month_start_boundary c H) as (B1 & B2).
+    destruct (next_month_exact c H) as [Hn E]. unfold w_year, w_month, wall_day in E.
+    split; [apply andb_true_intro; split; apply Z.eqb_eq; assumption|].
+    split; [exact B1|]. split; [exact E|]. split; [|exact Hn].
+    rewrite E. pose proof (CivilP.dim_bounds (year_of (c / DAY)) (month_of (c / DAY))) as Db.
+    set (dm := dim _ _) in *. clearbody dm. clear - Db. unfold DAY. lia.
+  - destruct (year_start_boundary c H) as (B1 & B2 & B3).
+    destruct (next_year_exact c H) as [Hn E]. unfold w_year, wall_day in E.
+    split; [apply andb_true_intro; split; [apply andb_true_intro; split|]; apply Z.eqb_eq; assumption|].
+    split; [exact B1|]. split; [exact E|]. split; [|exact Hn].
+    rewrite E. pose proof (CivilP.diy_bounds (year_of (c / DAY))) as Db.
+    set (dy := diy _) in *. clearbody dy. clear - Db. unfold DAY. lia.
+Qed.
+
+(* the first boundary: the period containing wall clock value w *)
+Lemma snap_facts p w : p <> PFull -> bdy p (snap p w) /\ snap p w <= w < step p (snap p w).
+Proof.
+  intros Hp. destruct p; cbn [bdy snap step]; try congruence.
+  - unfold next_hour, dt_ymdh, w_year, w_month, w_day, w_hour, mk_wall. rewrite civil_roundtrip.
+    unfold wall_day, wall_sod, DAY. lia.
+  - unfold next_day. rewrite dt_ymd_wall. unfold wall_day, DAY. lia.
+  - unfold next_week. rewrite dt_ymd_wall. unfold weekday, wall_day, DAY. lia.
+  - split; [apply month_start_snap|]. split; [apply snap_month|].
+    destruct (w_fields_first (w_year w) (w_month w) (w_month_range w)) as (Ey & Em & _).
+    unfold next_month. rewrite Ey, Em. clear Ey Em.
+    unfold dt_ymd, w_year, w_month, year_of, month_of, mk_wall.
+    pose proof (civil_facts (wall_day w)) as F. destruct (civil_from_days (wall_day w)) as [[y m] dd].
+    cbn [fst snd]. destruct F as (_ & _ & _ & F & _). unfold next_month_start in F.
+    destruct (m =? 12); unfold wall_day, DAY in *; lia.
+  - split; [apply year_start_snap|]. split; [apply snap_year|].
+    destruct (w_fields_first (w_year w) 1 ltac:(lia)) as (Ey & _ & _).
+    unfold next_year. rewrite Ey. clear Ey.
+    unfold dt_ymd, w_year, year_of, mk_wall.
+    pose proof (civil_facts (wall_day w)) as F. destruct (civil_from_days (wall_day w)) as [[y m] dd].
+    cbn [fst snd]. destruct F as (_ & _ & _ & _ & F & _). unfold wall_day, DAY in *. lia.
+Qed.
+
+(* ------------------------------------------------------------------------------------ *)
+(* 8. the windows of the model pass the oracle's window check (Spec/MetricsSpec.v windows_ok) *)
+
+(* every window is a local calendar period: begins when the clock reaches its label, a period
+   boundary; ends when the clock reaches the next boundary, exactly one period length later; is not
+   reversed; and the labels are consecutive.  Zone hypothesis only. *)
+Lemma loop_window_ok z p : p <> PFull -> zone_wf (unit_of_period p) z = true ->
+  forall ew ws fuel c, bdy p c -> win_loop fuel z (step p) c ew = Some ws ->
+  forallb (window_ok z p) ws = true /\ contiguous p ws = true.
+Proof.
+  intros Hp Hz ew. set (u := unit_of_period p) in *.
+  induction ws as [|[[L s] e] r IH]; intros fuel c Hc H; [split; reflexivity|].
+  apply win_loop_head in H. destruct H as (-> & -> & -> & Hlt & fuel' & Hr).
+  destruct (bdy_facts p c Hp Hc) as (Bd & Md & Ln & Gt & Nx). fold u in Md.
+  destruct (bdy_facts p (step p c) Hp Nx) as (_ & Mn & _). fold u in Mn.
+  destruct (IH fuel' (step p c) Nx Hr) as [IH1 IH2].
+  pose proof (reaches_ts0 u z c Hz Md) as R1.
+  pose proof (reaches_ts0 u z (step p c) Hz Mn) as R2.
+  pose proof (zone_wf_G3 u z (step p c) Hz Mn) as G3n.
+  pose proof (zone_wf_G1 u z c (ts0 z (step p c)) Hz Md ltac:(lia)) as Hle.
+  split.
+  - cbn [forallb]. rewrite IH1, andb_true_r. unfold window_ok. rewrite <- Ln, Bd, R1, R2. cbn [andb].
+    replace (ts0 z c <=? ts0 z (step p c)) with true by lia. cbn [andb].
+    destruct (ts0 z c <? ts0 z (step p c)) eqn:E.
+    + destruct (Z_lt_le_dec (utc_to_wall z (ts0 z c)) (step p c)) as [Hl|Hg]; [lia|].
+      pose proof (zone_wf_G1 u z (step p c) (ts0 z c) Hz Mn Hg). lia.
+    + assert (E2 : ts0 z c = ts0 z (step p c)) by lia. rewrite E2. lia.
+  - cbn [contiguous]. destruct r as [|[[L' s'] e'] r']; [reflexivity|].
+    pose proof Hr as Hr'. apply win_loop_head in Hr'. destruct Hr' as (-> & -> & _).
+    rewrite IH2, andb_true_r. rewrite <- Ln. rewrite !Z.eqb_refl. reflexivity.
+Qed.
+
+Theorem windows_calendar_aligned z a b p ws :
+  zone_wf (unit_of_period p) z = true -> p <> PFull ->
+  period_windows_dt z a b p = Some ws ->
+  forallb (window_ok z p) ws = true /\ contiguous p ws = true.
+Proof.
+  intros Hz Hp H. destruct (Z_lt_le_dec a b) as [Hab|Hge].
+  - rewrite (pwd_unfold z a b p Hab Hp) in H.
+    apply (loop_window_ok z p Hp Hz _ ws _ _ (proj1 (snap_facts p (utc_to_wall z a) Hp)) H).
+  - unfold period_windows_dt in H. replace (a >=? b) with true in H by lia. inversion H. split; reflexivity.
+Qed.
+Print Assumptions windows_calendar_aligned.
+
+(* the same, readable: *)
+Corollary windows_calendar_aligned_prop z a b p ws :
+  zone_wf (unit_of_period p) z = true -> p <> PFull ->
+  period_windows_dt z a b p = Some ws ->
+  Forall (fun w : win => let '(L, s, e) := w in
+            is_boundary p L = true /\ reaches z L s = true /\ reaches z (L + plen p L) e = true /\ s <= e) ws.
+Proof.
+  intros Hz Hp H. destruct (windows_calendar_aligned z a b p ws Hz Hp H) as [H1 _].
+  rewrite forallb_forall in H1. apply Forall_forall. intros [[L s] e] Hw. specialize (H1 _ Hw).
+  unfold window_ok in H1.
+  apply andb_prop in H1 as [H1 _]. apply andb_prop in H1 as [H1 H4].
+  apply andb_prop in H1 as [H1 H3]. apply andb_prop in H1 as [H1 H2]. repeat split; try assumption. lia.
+Qed.
+
+(* the range end is not an instant at which the local clock jumps forward off or over a period boundary *)
+Definition end_not_on_gap (u : Z) (z : zone) (b : Z) : Prop :=
+  forall L, L mod u = 0 -> L < utc_to_wall z b -> L <= utc_to_wall z (b - 1).
+
+Lemma no_jump_not_on_gap u z b : utc_to_wall z b <= utc_to_wall z (b - 1) + 1 -> end_not_on_gap u z b.
+Proof. intros H L _ HL. lia. Qed.
+
+Lemma loop_meets z p a b : p <> PFull -> zone_wf (unit_of_period p) z = true ->
+  end_not_on_gap (unit_of_period p) z b ->
+  forall ws fuel c, bdy p c -> utc_to_wall z a < step p c ->
+    win_loop fuel z (step p) c (utc_to_wall z b) = Some ws -> forallb (meets a b) ws = true.
+Proof.
+  intros Hp Hz Hgap. set (u := unit_of_period p) in *.
+  induction ws as [|[[L s] e] r IH]; intros fuel c Hc Ha H; [reflexivity|].
+  apply win_loop_head in H. destruct H as (-> & -> & -> & Hlt & fuel' & Hr).
+  destruct (bdy_facts p c Hp Hc) as (Bd & Md & Ln & Gt & Nx). fold u in Md.
+  destruct (bdy_facts p (step p c) Hp Nx) as (_ & Mn & _ & Gt2 & _). fold u in Mn.
+  cbn [forallb]. rewrite (IH fuel' (step p c) Nx ltac:(lia) Hr), andb_true_r.
+  unfold meets.
+  pose proof (zone_wf_G1 u z c (b - 1) Hz Md (Hgap c Md Hlt)).
+  pose proof (zone_wf_G2 u z (step p c) a Hz Mn Ha). lia.
+Qed.
+
+Lemma windows_ok_nonfull z p a b ws : p <> PFull -> a < b ->
+  windows_ok z p a b ws =
+  match ws with
+  | [] => false
+  | _ => forallb (window_ok z p) ws && contiguous p ws &&
+         (first_start ws <=? a) && (b <=? last_end ws) && forallb (meets a b) ws
+  end.
+Proof.
+  intros Hp Hab. unfold windows_ok. replace (a >=? b) with false by lia.
+  destruct p; try reflexivity. congruence.
+Qed.
+
+(* The windows the model computes are accepted by the oracle's check: contiguous local calendar
+   periods of the zone that together reach over the query range, each meeting the range.
+   Hypotheses: the zone table is well formed for the stepping unit; the range end is neither the
+   second showing of a period boundary (M3) nor the instant the clock jumps forward off a period
+   boundary (M4, day_range_end_on_gap_refuted below). *)
+Theorem model_windows_ok z a b p ws :
+  zone_wf (unit_of_period p) z = true -> a < b ->
+  (utc_to_wall z b mod unit_of_period p = 0 -> fold_of z b = false) ->
+  end_not_on_gap (unit_of_period p) z b ->
+  period_windows_dt z a b p = Some ws -> windows_ok z p a b ws = true.
+Proof.
+  intros Hz Hab Hfold Hgap H.
+  assert (D : p = PFull \/ p <> PFull) by (destruct p; [right; discriminate..|left; reflexivity]).
+  destruct D as [->|Hp].
+  - unfold period_windows_dt in H. replace (a >=? b) with false in H by lia. inversion H.
+    unfold windows_ok. replace (a >=? b) with false by lia. rewrite !Z.eqb_refl. reflexivity.
+  - destruct (windows_cover_range z a b p ws Hz Hab Hfold H) as (s0 & Hch & H1 & H2).
+    destruct (windows_calendar_aligned z a b p ws Hz Hp H) as [W1 W2].
+    rewrite (pwd_unfold z a b p Hab Hp) in H.
+    destruct (snap_facts p (utc_to_wall z a) Hp) as (S1 & S2 & S3).
+    pose proof (loop_meets z p a b Hp Hz Hgap ws _ _ S1 S3 H) as W3.
+    rewrite (windows_ok_nonfull z p a b ws Hp Hab).
+    destruct ws as [|w r]; [cbn [chain_end] in H2; lia|].
+    rewrite W1, W2, W3. cbn [andb]. rewrite andb_true_r.
+    rewrite (chain_end_last (w :: r) ltac:(discriminate) s0) in H2.
+    destruct w as [[L s] e]. destruct Hch as (-> & _). cbn [first_start]. lia.
+Qed.
+Print Assumptions model_windows_ok.
